@@ -2,7 +2,7 @@ SPECIFICATION Spec
 CONSTANTS
   MaxLen = 3
   MatIds = {"ident", "asym", "neg"}
-  SeedMatIds = {"ident", "cross"}
+  SeedMatIds = {"cross", "ident"}
   BandPairs <- BandPairsQuick
   BandGaps <- BandGapsQuick
   SeedGaps <- SeedGapsQuick
